@@ -93,18 +93,14 @@ func (v Value) String() string {
 	return "<" + v.t.String() + ">"
 }
 
-// Int truncates like syscall/js (int(float64)); NaN and out-of-range follow Go's wasm conversion (saturating).
+// Int converts like syscall/js on js/wasm: int(float64) truncates toward zero; NaN and
+// values outside the int64 range give math.MinInt64 (observed under Node with go1.24).
 func (v Value) Int() int {
 	if v.t != TypeNumber {
 		panic("syscall/js: call of Value.Int on " + v.t.String())
 	}
 	f := v.n
-	switch {
-	case math.IsNaN(f):
-		return 0
-	case f >= 9.2233720368547758e18:
-		return math.MaxInt64
-	case f <= -9.2233720368547758e18:
+	if math.IsNaN(f) || f >= 9.2233720368547758e18 || f <= -9.2233720368547758e18 {
 		return math.MinInt64
 	}
 	return int(f)
